@@ -451,6 +451,13 @@ func (c *Cluster) startNode(n *SimNode, bootstrap bool) error {
 		return err
 	}
 	n.ownScanned = n.core().Seq()
+	// a bootstrapped node that has to re-join first learns its head and sequence
+	// number only once it is accepted; its store already holds its earlier events
+	if last, err := store.LastEventFrom(n.pubHex); err == nil && last != "" {
+		if ev, err := store.GetEvent(last); err == nil && ev.Index() > n.ownScanned {
+			n.ownScanned = ev.Index()
+		}
+	}
 	n.ownPayload = map[string]int{}
 	n.sigChecked = map[string]bool{}
 	n.frameChecked = map[int]bool{}
